@@ -215,6 +215,7 @@ func (c *goCallable) ParamCount() int {
 func (c *goCallable) Call(argv []reflect.Value) (reflect.Value, error) {
 
 	var err error
+	verifYield("gocall.enter", c.name)
 
 	argv, err = c.validateArgCount(argv)
 	if err != nil {
